@@ -37,102 +37,127 @@ Ltac bool_lia :=
          | H : (_ =? _) = false |- _ => apply Z.eqb_neq in H
          end.
 
-(* closed form of one watchdog iteration on a connected ACTIVE session *)
-Definition tick_spec (now : Z) (s : st) : st * list out :=
-  let hb := s_hb s in
-  let fire := (hb - 1) * 1000 <? now - s_mlt s in
-  match s_id s with
-  | None =>
-      if fire then
-        let n := now / 1000 in
-        if negb (n =? 0) && (2 * hb * 1000 <? now - n * 1000)
-        then (dead_st hb, [testreq_frame n; ODisconnect])
-        else (mkSt ST_ACTIVE hb now (Some n) true (s_gap s), [testreq_frame n])
-      else (s, [])
-  | Some n =>
-      if 2 * hb * 1000 <? now - n * 1000 then (dead_st hb, [ODisconnect])
-      else ((if fire then set_mlt s now else s), [])
+Ltac bool_split :=
+  repeat match goal with
+         | H : _ && _ = true |- _ => apply andb_true_iff in H; destruct H
+         | H : _ && _ = false |- _ => apply andb_false_iff in H; destruct H
+         | H : _ || _ = true |- _ => apply orb_true_iff in H; destruct H
+         | H : _ || _ = false |- _ => apply orb_false_iff in H; destruct H
+         | H : negb _ = true |- _ => apply negb_true_iff in H
+         | H : negb _ = false |- _ => apply negb_false_iff in H
+         end.
+
+Ltac unfold_states :=
+  unfold ST_ACTIVE, ST_RESENDREQ_AWAITING, ST_DISCONNECTED_BROKEN_CONN, ST_NETWORK_CONN_ESTABLISHED in *.
+
+Definition is_testreq (o : out) : bool :=
+  match o with OWire KTestRequest _ => true | _ => false end.
+
+Ltac crush_one :=
+  match goal with
+  | |- context [match ?x with _ => _ end] => is_var x; destruct x eqn:?
+  | |- context [if ?c then _ else _] =>
+      lazymatch c with
+      | context [match _ with _ => _ end] => fail
+      | _ => first [ let v := eval vm_compute in c in
+                     lazymatch v with
+                     | true => change c with true
+                     | false => change c with false
+                     end
+                   | destruct c eqn:? ]
+      end
   end.
 
-Lemma tick_live : forall now s, live s -> 0 <= s_hb s -> s_id s <> Some 0 -> tick now s = tick_spec now s.
+Ltac crush_cbn :=
+  cbn [s_state s_hb s_mlt s_id s_conn s_gap fst snd negb andb orb app existsb is_testreq] in *.
+
+Ltac step_crush :=
+  unfold step, tick, recv, app_probe, app_raw, check_gap, dispatch, finalize, session_up, disconnect,
+         set_mlt, set_id, set_state, truthy, testreq_frame, thr, thr_probe, thr_dead, thr_treq, thr_treq_silence in *;
+  crush_cbn; repeat (crush_one; crush_cbn).
+
+(* logged on: ACTIVE, or RESENDREQ_AWAITING (a ResendRequest is out) - the states in which the watchdog probes *)
+Definition up (s : st) : Prop := s_conn s = true /\ session_up s = true.
+
+Lemma live_up : forall s, live s -> up s.
+Proof. intros s [Hc Hs]. split; [assumption|]. unfold session_up. rewrite Hs, Z.eqb_refl. reflexivity. Qed.
+
+(* closed form of one watchdog iteration on a logged-on session *)
+Definition tick_spec (now : Z) (s : st) : st * list out :=
+  let hb := s_hb s in
+  match s_id s with
+  | None =>
+      if (hb - 1) * 1000 <? now - s_mlt s then
+        (mkSt (s_state s) hb now (Some (now / 1000)) true (s_gap s), [testreq_frame (now / 1000)])
+      else (s, [])
+  | Some n =>
+      if (2 * hb * 1000 <? now - s_mlt s) && (negb (s_mlt s =? 0) || (2 * hb * 1000 <? now - n * 1000))
+      then (dead_st hb, [ODisconnect])
+      else (s, [])
+  end.
+
+Lemma tick_up : forall now s, up s -> 0 <= s_hb s -> s_id s <> Some 0 -> tick now s = tick_spec now s.
 Proof.
-  intros now [stt hb mlt id conn g] [Hc Hs] Hhb Hid. cbn in Hc, Hs, Hhb, Hid. subst conn stt.
-  unfold tick, tick_spec. cbn [s_conn s_state s_hb s_mlt s_id negb].
-  rewrite thr_probe_eq, Z.eqb_refl. cbn [andb].
-  destruct id as [n|].
-  - assert (Hn : n <> 0) by congruence.
-    cbn [truthy]. apply Z.eqb_neq in Hn. rewrite Hn. cbn [negb].
-    destruct ((hb - 1) * 1000 <? now - mlt) eqn:F.
-    + cbn [set_mlt s_state s_hb s_mlt s_id s_conn]. rewrite thr_dead_eq, Z.sub_diag.
-      replace (2 * hb * 1000 <? 0) with false by (symmetry; apply Z.ltb_ge; lia).
-      rewrite andb_false_r. cbn [set_mlt s_id s_hb s_state s_mlt s_conn]. rewrite thr_treq_eq, Hn. cbn [negb andb].
-      destruct (2 * hb * 1000 <? now - n * 1000) eqn:T; reflexivity.
-    + cbn [s_mlt s_hb s_id]. rewrite thr_dead_eq.
-      replace (2 * hb * 1000 <? now - mlt) with false by (symmetry; apply Z.ltb_ge; bool_lia; lia).
-      rewrite andb_false_r. cbn [set_mlt s_id s_hb s_state s_mlt s_conn]. rewrite thr_treq_eq, Hn. cbn [negb andb].
-      destruct (2 * hb * 1000 <? now - n * 1000) eqn:T; reflexivity.
-  - cbn [truthy].
-    destruct ((hb - 1) * 1000 <? now - mlt) eqn:F.
-    + cbn [set_mlt set_id s_state s_hb s_mlt s_id s_conn]. rewrite thr_dead_eq, Z.sub_diag.
-      replace (2 * hb * 1000 <? 0) with false by (symmetry; apply Z.ltb_ge; lia).
-      rewrite andb_false_r. cbn [set_mlt set_id s_id s_hb s_state s_mlt s_conn]. rewrite thr_treq_eq.
-      destruct (negb (now / 1000 =? 0) && (2 * hb * 1000 <? now - now / 1000 * 1000)) eqn:T; reflexivity.
-    + cbn [s_mlt s_hb s_id]. rewrite thr_dead_eq.
-      replace (2 * hb * 1000 <? now - mlt) with false by (symmetry; apply Z.ltb_ge; bool_lia; lia).
-      rewrite andb_false_r. reflexivity.
+  intros now [stt hb mlt id conn g] [Hc Hs] Hhb Hid. unfold session_up in Hs. cbn in Hc, Hs, Hhb, Hid. subst conn.
+  unfold tick_spec, dead_st. step_crush; try reflexivity; exfalso;
+    try (cbn in Hs; discriminate Hs); try congruence;
+    bool_split; bool_lia; subst; try congruence; unfold_states; lia.
 Qed.
 
 (* ------------------------------------------------------------------ single iterations *)
+Definition idle_up (s : st) (hb t0 : Z) : Prop :=
+  up s /\ s_hb s = hb /\ s_id s = None /\ s_mlt s = t0.
 Definition idle_at (s : st) (hb t0 : Z) : Prop :=
   live s /\ s_hb s = hb /\ s_id s = None /\ s_mlt s = t0 /\ s_gap s = 0.
 
+Lemma idle_at_up : forall s hb t0, idle_at s hb t0 -> idle_up s hb t0.
+Proof. intros s hb t0 (L & Hh & Hi & Hm & _). repeat split; try assumption; apply live_up; assumption. Qed.
+
 Lemma tick_idle : forall now s hb t0,
-  idle_at s hb t0 -> 0 <= hb -> now - t0 <= (hb - 1) * 1000 -> tick now s = (s, []).
+  idle_up s hb t0 -> 0 <= hb -> now - t0 <= (hb - 1) * 1000 -> tick now s = (s, []).
 Proof.
-  intros now s hb t0 (L & Hh & Hi & Hm & Hg) Hhb Hle.
-  rewrite tick_live; [| assumption | lia | congruence].
+  intros now s hb t0 (L & Hh & Hi & Hm) Hhb Hle.
+  rewrite tick_up; [| assumption | lia | congruence].
   unfold tick_spec. rewrite Hi, Hh, Hm.
   replace ((hb - 1) * 1000 <? now - t0) with false by (symmetry; apply Z.ltb_ge; lia). reflexivity.
 Qed.
 
-Definition probing_st (hb now : Z) : st := mkSt ST_ACTIVE hb now (Some (now / 1000)) true 0.
+Definition probing_of (s : st) (now : Z) : st :=
+  mkSt (s_state s) (s_hb s) now (Some (now / 1000)) true (s_gap s).
 
 Lemma tick_probe : forall now s hb t0,
-  idle_at s hb t0 -> 1 <= hb -> 1000 <= now -> (hb - 1) * 1000 < now - t0 ->
-  tick now s = (probing_st hb now, [testreq_frame (now / 1000)]).
+  idle_up s hb t0 -> 0 <= hb -> (hb - 1) * 1000 < now - t0 ->
+  tick now s = (probing_of s now, [testreq_frame (now / 1000)]).
 Proof.
-  intros now s hb t0 (L & Hh & Hi & Hm & Hg) Hhb Hnow Hgt.
-  rewrite tick_live; [| assumption | lia | congruence].
-  unfold tick_spec. rewrite Hi, Hh, Hm, Hg.
+  intros now s hb t0 (L & Hh & Hi & Hm) Hhb Hgt.
+  rewrite tick_up; [| assumption | lia | congruence].
+  unfold tick_spec, probing_of. rewrite Hi, Hm. rewrite Hh at 1.
   replace ((hb - 1) * 1000 <? now - t0) with true by (symmetry; apply Z.ltb_lt; lia).
-  pose proof (div1000 now).
-  replace (2 * hb * 1000 <? now - now / 1000 * 1000) with false by (symmetry; apply Z.ltb_ge; lia).
-  rewrite andb_false_r. reflexivity.
+  reflexivity.
 Qed.
 
-(* a probe is outstanding and its deadline (id + 2 hb seconds) has not passed: nothing is emitted *)
+(* a probe is outstanding and the clock (probe time or last valid message) is at most 2 hb s old: nothing happens *)
 Lemma tick_waiting : forall now s n,
-  live s -> s_id s = Some n -> n <> 0 -> 0 <= s_hb s -> now <= (n + 2 * s_hb s) * 1000 ->
-  exists m, tick now s = (set_mlt s m, []).
+  up s -> s_id s = Some n -> n <> 0 -> 0 <= s_hb s -> now - s_mlt s <= 2 * s_hb s * 1000 ->
+  tick now s = (s, []).
 Proof.
   intros now s n L Hi Hn Hhb Hle.
-  rewrite tick_live; [| assumption | lia | congruence].
+  rewrite tick_up; [| assumption | lia | congruence].
   unfold tick_spec. rewrite Hi.
-  replace (2 * s_hb s * 1000 <? now - n * 1000) with false by (symmetry; apply Z.ltb_ge; lia).
-  destruct ((s_hb s - 1) * 1000 <? now - s_mlt s).
-  - exists now. reflexivity.
-  - exists (s_mlt s). destruct s; reflexivity.
+  replace (2 * s_hb s * 1000 <? now - s_mlt s) with false by (symmetry; apply Z.ltb_ge; lia).
+  reflexivity.
 Qed.
 
-(* ... and the first iteration after the deadline disconnects *)
+(* ... and the first iteration that finds it older disconnects *)
 Lemma tick_timeout : forall now s n,
-  live s -> s_id s = Some n -> n <> 0 -> 0 <= s_hb s -> (n + 2 * s_hb s) * 1000 < now ->
+  up s -> s_id s = Some n -> n <> 0 -> 0 <= s_hb s -> s_mlt s <> 0 -> 2 * s_hb s * 1000 < now - s_mlt s ->
   tick now s = (dead_st (s_hb s), [ODisconnect]).
 Proof.
-  intros now s n L Hi Hn Hhb Hlt.
-  rewrite tick_live; [| assumption | lia | congruence].
+  intros now s n L Hi Hn Hhb Hm Hlt.
+  rewrite tick_up; [| assumption | lia | congruence].
   unfold tick_spec. rewrite Hi.
-  replace (2 * s_hb s * 1000 <? now - n * 1000) with true by (symmetry; apply Z.ltb_lt; lia).
+  replace (2 * s_hb s * 1000 <? now - s_mlt s) with true by (symmetry; apply Z.ltb_lt; lia).
+  replace (s_mlt s =? 0) with false by (symmetry; apply Z.eqb_neq; assumption).
   reflexivity.
 Qed.
 
@@ -180,7 +205,7 @@ Proof. reflexivity. Qed.
 
 (* silence not yet long enough: k iterations change nothing and emit nothing *)
 Lemma quiet_ticks : forall k p s hb t0,
-  idle_at s hb t0 -> 0 <= hb -> p + (Z.of_nat k - 1) * 1000 - t0 <= (hb - 1) * 1000 ->
+  idle_up s hb t0 -> 0 <= hb -> p + (Z.of_nat k - 1) * 1000 - t0 <= (hb - 1) * 1000 ->
   outs s (ticks p k) = repeat [] k /\ final s (ticks p k) = s.
 Proof.
   induction k as [|k IH]; intros p s hb t0 I Hhb Hle; [split; reflexivity|].
@@ -190,131 +215,106 @@ Proof.
   rewrite A, B. split; reflexivity.
 Qed.
 
-Lemma live_set_mlt : forall s m, live s -> live (set_mlt s m).
-Proof. intros s m [A B]; split; assumption. Qed.
-
-(* a probe is outstanding: until its deadline nothing is emitted (no second probe, no disconnect) *)
+(* a probe is outstanding: until the clock is 2 hb s old nothing is emitted (no second probe, no disconnect) *)
 Lemma waiting_ticks : forall k p s n,
-  live s -> s_id s = Some n -> n <> 0 -> 0 <= s_hb s ->
-  p + (Z.of_nat k - 1) * 1000 <= (n + 2 * s_hb s) * 1000 ->
-  outs s (ticks p k) = repeat [] k /\ exists m, final s (ticks p k) = set_mlt s m.
+  up s -> s_id s = Some n -> n <> 0 -> 0 <= s_hb s ->
+  p + (Z.of_nat k - 1) * 1000 - s_mlt s <= 2 * s_hb s * 1000 ->
+  outs s (ticks p k) = repeat [] k /\ final s (ticks p k) = s.
 Proof.
-  induction k as [|k IH]; intros p s n L Hi Hn Hhb Hle.
-  - split; [reflexivity|]. exists (s_mlt s). destruct s; reflexivity.
-  - cbn [ticks repeat]. rewrite outs_cons, final_cons. cbn [step].
-    destruct (tick_waiting p s n L Hi Hn Hhb) as [m E]; [lia|]. rewrite E. cbn [fst snd].
-    destruct (IH (p + tick_ms) (set_mlt s m) n) as [A [m' B]];
-      [apply live_set_mlt; assumption | assumption | assumption | assumption
-      | rewrite tick_ms_eq; cbn [set_mlt s_hb]; lia |].
-    rewrite A, B. split; [reflexivity|]. exists m'. reflexivity.
+  induction k as [|k IH]; intros p s n L Hi Hn Hhb Hle; [split; reflexivity|].
+  cbn [ticks repeat]. rewrite outs_cons, final_cons. cbn [step].
+  rewrite (tick_waiting p s n L Hi Hn Hhb) by lia. cbn [fst snd].
+  destruct (IH (p + tick_ms) s n L Hi Hn Hhb) as [A B]; [rewrite tick_ms_eq; lia|].
+  rewrite A, B. split; reflexivity.
 Qed.
 
 (* ------------------------------------------------------------------ C12_probe, C12_dead_peer *)
 Lemma probe_run : forall hb s t0 p (k : nat),
-  1 <= hb -> idle_at s hb t0 -> 1000 <= p ->
+  1 <= hb -> idle_up s hb t0 ->
   let tp := p + Z.of_nat k * 1000 in
   tp - 1000 - t0 <= (hb - 1) * 1000 < tp - t0 ->
   outs s (ticks p (k + 1)) = repeat [] k ++ [[testreq_frame (tp / 1000)]]
-  /\ final s (ticks p (k + 1)) = probing_st hb tp
+  /\ final s (ticks p (k + 1)) = probing_of s tp
   /\ t0 + (hb - 1) * 1000 < tp <= t0 + hb * 1000.
 Proof.
-  intros hb s t0 p k Hhb I Hp tp [Hprev Hfire].
+  intros hb s t0 p k Hhb I tp [Hprev Hfire].
   rewrite ticks_app, outs_app, final_app.
   destruct (quiet_ticks k p s hb t0 I) as [A B]; [lia | subst tp; lia |].
   rewrite A, B. cbn [ticks]. rewrite outs_cons, final_cons. cbn [step].
-  fold tp. rewrite (tick_probe tp s hb t0 I Hhb) by (subst tp; lia).
+  fold tp. rewrite (tick_probe tp s hb t0 I) by lia.
   cbn [fst snd outs trace map final fold_left]. repeat split; lia.
 Qed.
 
-Lemma probing_live : forall hb t, live (probing_st hb t).
-Proof. split; reflexivity. Qed.
+Lemma probing_up : forall s t, up s -> up (probing_of s t).
+Proof. intros s t [Hc Hs]. split; [reflexivity | exact Hs]. Qed.
 
+(* the peer stays silent: exactly 2 hb quiet iterations follow the probe and the next one disconnects *)
 Lemma dead_peer_run : forall hb s t0 p (k m : nat),
-  1 <= hb -> idle_at s hb t0 -> 1000 <= p ->
+  1 <= hb -> idle_up s hb t0 -> 1000 <= p ->
   let tp := p + Z.of_nat k * 1000 in
-  let n := tp / 1000 in
-  let td := tp + Z.of_nat (S m) * 1000 in
+  let td := tp + (2 * hb + 1) * 1000 in
   tp - 1000 - t0 <= (hb - 1) * 1000 < tp - t0 ->
-  td - 1000 <= (n + 2 * hb) * 1000 < td ->
+  Z.of_nat m = 2 * hb ->
   outs s (ticks p (k + 1 + (m + 1))) =
-    repeat [] k ++ [[testreq_frame n]] ++ repeat [] m ++ [[ODisconnect]]
+    repeat [] k ++ [[testreq_frame (tp / 1000)]] ++ repeat [] m ++ [[ODisconnect]]
   /\ final s (ticks p (k + 1 + (m + 1))) = dead_st hb
-  /\ t0 + (3 * hb - 1) * 1000 < td <= t0 + (3 * hb + 1) * 1000.
+  /\ t0 + 3 * hb * 1000 < td <= t0 + (3 * hb + 1) * 1000.
 Proof.
-  intros hb s t0 p k m Hhb I Hp tp n td Hk Hm.
-  destruct (probe_run hb s t0 p k Hhb I Hp Hk) as (A & B & C). fold tp in A, B, C. fold n in A.
+  intros hb s t0 p k m Hhb I Hp tp td Hk Hm.
+  destruct (probe_run hb s t0 p k Hhb I Hk) as (A & B & C). fold tp in A, B, C.
   rewrite (ticks_app (k + 1)), outs_app, final_app, A, B.
   replace (p + Z.of_nat (k + 1) * 1000) with (tp + 1000) by (subst tp; lia).
   rewrite (ticks_app m), outs_app, final_app.
-  assert (Hn : n <> 0) by (subst n; pose proof (div1000_pos tp); subst tp; lia).
-  destruct (waiting_ticks m (tp + 1000) (probing_st hb tp) n (probing_live hb tp)) as [W [mm F]];
-    [reflexivity | assumption | cbn; lia | cbn [probing_st s_hb]; subst td; lia |].
+  destruct I as (U & Hh & Hi & Hmlt).
+  assert (Hn : tp / 1000 <> 0) by (pose proof (div1000_pos tp); subst tp; lia).
+  destruct (waiting_ticks m (tp + 1000) (probing_of s tp) (tp / 1000) (probing_up s tp U)) as [W F];
+    [reflexivity | assumption | cbn [probing_of s_hb]; lia | cbn [probing_of s_hb s_mlt]; lia |].
   rewrite W, F. cbn [ticks]. rewrite outs_cons, final_cons. cbn [step].
-  rewrite (tick_timeout _ _ n);
-    [| apply live_set_mlt, probing_live | reflexivity | assumption | cbn; lia
-     | cbn [set_mlt probing_st s_hb]; subst td; lia ].
-  cbn [fst snd outs trace map final fold_left set_mlt probing_st s_hb].
-  rewrite <- !app_assoc. cbn [app].
-  pose proof (div1000 tp). fold n in H.
+  rewrite (tick_timeout _ _ (tp / 1000));
+    [| apply probing_up; assumption | reflexivity | assumption | cbn [probing_of s_hb]; lia
+     | cbn [probing_of s_mlt]; subst tp; lia | cbn [probing_of s_hb s_mlt]; lia ].
+  cbn [fst snd outs trace map final fold_left probing_of s_hb].
+  rewrite <- !app_assoc. cbn [app]. rewrite Hh.
   repeat split; subst td; lia.
 Qed.
 
 (* ------------------------------------------------------------------ facts about one step *)
-Definition is_testreq (o : out) : bool :=
-  match o with OWire KTestRequest _ => true | _ => false end.
 Definition writes_testreq (r : row) : bool := existsb is_testreq (r_out r).
 Definition is_tick (e : ev) : bool := match e with Tick _ => true | _ => false end.
 Definition is_raw (e : ev) : bool := match e with AppRaw _ _ => true | _ => false end.
 
-Ltac crush_one :=
-  match goal with
-  | |- context [match ?x with _ => _ end] => is_var x; destruct x eqn:?
-  | |- context [if ?c then _ else _] =>
-      lazymatch c with
-      | context [match _ with _ => _ end] => fail
-      | _ => first [ let v := eval vm_compute in c in
-                     lazymatch v with
-                     | true => change c with true
-                     | false => change c with false
-                     end
-                   | destruct c eqn:? ]
-      end
-  end.
+Lemma str_eqb_true : forall a b, str_eqb a b = true -> a = b.
+Proof.
+  unfold str_eqb. induction a as [|x a IH]; intros [|y b] H; try discriminate; [reflexivity|].
+  apply andb_true_iff in H. destruct H as [H1 H2]. apply N.eqb_eq in H1. subst y. f_equal. apply IH. exact H2.
+Qed.
 
-Ltac bool_split :=
-  repeat match goal with
-         | H : _ && _ = true |- _ => apply andb_true_iff in H; destruct H
-         | H : _ && _ = false |- _ => apply andb_false_iff in H; destruct H
-         | H : _ || _ = true |- _ => apply orb_true_iff in H; destruct H
-         | H : _ || _ = false |- _ => apply orb_false_iff in H; destruct H
-         | H : negb _ = true |- _ => apply negb_true_iff in H
-         | H : negb _ = false |- _ => apply negb_false_iff in H
-         end.
+Ltac no_frame :=
+  let f := fresh "f" in let Hf := fresh "Hf" in let Hq := fresh "Hq" in
+  intros f Hf Hq; cbn in Hf; repeat (destruct Hf as [Hf | Hf]; [subst f; discriminate Hq|]); destruct Hf.
 
-Ltac unfold_states :=
-  unfold ST_ACTIVE, ST_RESENDREQ_AWAITING, ST_DISCONNECTED_BROKEN_CONN, ST_NETWORK_CONN_ESTABLISHED in *.
-
-Ltac crush_cbn :=
-  cbn [s_state s_hb s_mlt s_id s_conn s_gap fst snd negb andb orb app existsb is_testreq] in *.
-
-Ltac step_crush :=
-  unfold step, tick, recv, app_probe, app_raw, check_gap, dispatch, finalize, session_up, disconnect,
-         set_mlt, set_id, set_state, truthy, testreq_frame, thr, thr_probe, thr_dead, thr_treq in *;
-  crush_cbn; repeat (crush_one; crush_cbn).
-
-(* while a probe is outstanding no further TestRequest is written by the watchdog or send_test_req;
-   the id survives unless a Heartbeat echoing it arrives (in sequence or behind a gap) or the connection is dropped *)
+(* while id n is outstanding every TestRequest frame that is written carries n (send_msg lets only the pending id
+   through); the id survives unless a Heartbeat echoing it arrives (in sequence or behind a gap) or the connection
+   is dropped *)
 Lemma pending_step : forall s e n s' o,
-  s_id s = Some n -> n <> 0 -> is_raw e = false -> step s e = (s', o) ->
-  existsb is_testreq o = false /\
+  s_id s = Some n -> n <> 0 -> step s e = (s', o) ->
+  (forall f, In f o -> is_testreq f = true -> f = testreq_frame n) /\
   (s_id s' = Some n \/ s_conn s' = false \/
    exists ta da v, e = Recv ta da (MHeartbeat (Some v)) /\ parse_id v = n).
 Proof.
-  intros [stt hb mlt id conn g] e n s' o Hi Hn Hr E. cbn in Hi. subst id.
+  intros [stt hb mlt id conn g] e n s' o Hi Hn E. cbn in Hi. subst id.
   apply Z.eqb_neq in Hn.
-  destruct e as [t | t d m | t | t rid]; [| destruct m as [rid | rid | | nw] | | discriminate Hr];
-    revert E; step_crush; intro E; inversion E; subst; cbn; try rewrite Hn in *; try discriminate;
-    split; try reflexivity; auto.
+  destruct e as [t | t d m | t | t rid]; [| destruct m as [rid | rid | | nw] | |].
+  7: { (* send_msg(TestRequest): only the pending id passes the gate *)
+    cbn [step] in E. unfold app_raw in E. cbn [s_conn s_state s_id] in E.
+    destruct (negb conn || (stt <? ST_NETWORK_CONN_ESTABLISHED)); [inversion E; subst; split; [no_frame | auto]|].
+    destruct (session_up _); [| inversion E; subst; split; [no_frame | auto]].
+    destruct (str_eqb rid (z_to_dec n)) eqn:Q; inversion E; subst; (split; [| auto]).
+    - intros f [Hf | []] _. subst f. apply str_eqb_true in Q. subst rid. reflexivity.
+    - no_frame. }
+  all: revert E; step_crush; intro E; inversion E; subst; cbn; try rewrite Hn in *; try discriminate;
+    (split; [intros f Hf Hq; cbn in Hf; repeat (destruct Hf as [Hf | Hf]; [subst f; try discriminate Hq|]); try destruct Hf |]);
+    auto.
   all: try (right; right; bool_lia; eauto).
 Qed.
 
@@ -326,14 +326,22 @@ Proof.
   destruct e as [t | t d m | t | t rid]; revert E; step_crush; intro E; inversion E; subst; cbn; auto.
 Qed.
 
-(* a TestRequest written by the watchdog or by send_test_req() carries int(time) and becomes the outstanding id *)
-Lemma probe_step : forall s e s' o,
-  is_raw e = false -> step s e = (s', o) -> existsb is_testreq o = true ->
-  (s_id s' = Some (ev_time e / 1000) \/ s_conn s' = false) /\ (s_id s = None \/ s_id s = Some 0).
+(* a TestRequest frame that is written carries the id that is outstanding afterwards *)
+Lemma frame_step : forall s e s' o f,
+  step s e = (s', o) -> In f o -> is_testreq f = true ->
+  exists n, f = testreq_frame n /\ (s_id s' = Some n \/ s_conn s' = false).
 Proof.
-  intros [stt hb mlt id conn g] e s' o Hr E.
-  destruct e as [t | t d m | t | t rid]; [| destruct m as [rid | rid | | nw] | | discriminate Hr];
-    revert E; step_crush; intro E; inversion E; subst; cbn; intro W; try discriminate W; bool_lia; subst; auto.
+  intros [stt hb mlt id conn g] e s' o f E Hf Hq.
+  destruct e as [t | t d m | t | t rid]; [| destruct m as [rid | rid | | nw] | |].
+  7: { cbn [step] in E. unfold app_raw in E. cbn [s_conn s_state s_id] in E.
+    destruct (negb conn || (stt <? ST_NETWORK_CONN_ESTABLISHED)); [inversion E; subst; destruct Hf as [Hf | []]; subst f; discriminate|].
+    destruct (session_up _); [| inversion E; subst; destruct Hf as [Hf | []]; subst f; discriminate].
+    destruct id as [n|]; [| inversion E; subst; destruct Hf as [Hf | []]; subst f; discriminate].
+    destruct (str_eqb rid (z_to_dec n)) eqn:Q; inversion E; subst; destruct Hf as [Hf | []]; subst f; try discriminate.
+    apply str_eqb_true in Q. subst rid. exists n. split; [reflexivity | left; reflexivity]. }
+  all: revert E; step_crush; intro E; inversion E; subst; cbn in Hf;
+    repeat (destruct Hf as [Hf | Hf]; [subst f; try discriminate Hq|]); try destruct Hf;
+    eexists; (split; [reflexivity|]); cbn; auto.
 Qed.
 
 Lemma id_nonzero_step : forall s e s' o,
@@ -369,24 +377,26 @@ Proof.
   destruct (dead_step s e s' o C E) as [_ X]. congruence.
 Qed.
 
+(* the time at which the watchdog wrote a probe in this row *)
 Definition probe_row (r : row) : option Z :=
   match r_ev r with
-  | Tick t | AppProbe t => if writes_testreq r then Some t else None
+  | Tick t => if writes_testreq r then Some t else None
   | _ => None
   end.
 
-(* where an outstanding id comes from: it was there before, or this very step wrote the probe *)
+Definition is_app_probe (e : ev) : bool := match e with AppProbe _ => true | _ => false end.
+
+(* where an outstanding id comes from: it was there before, or the watchdog wrote the probe in this very step and
+   restarted the clock *)
 Lemma id_origin_step : forall hb s e s' o n,
-  ok hb s -> step s e = (s', o) -> s_conn s' = true -> s_id s' = Some n ->
-  s_id s = Some n \/ exists t, probe_row (mkRow e o s') = Some t /\ n = t / 1000.
+  ok hb s -> is_app_probe e = false -> step s e = (s', o) -> s_conn s' = true -> s_id s' = Some n ->
+  (s_id s = Some n /\ (s_mlt s' = s_mlt s \/ s_mlt s' = ev_time e))
+  \/ exists t, probe_row (mkRow e o s') = Some t /\ n = t / 1000 /\ s_mlt s' = t.
 Proof.
-  intros hb0 [stt hb mlt id conn g] e s' o n [_ Hs] E. unfold session_up in Hs. cbn in Hs.
-  destruct e as [t | t d m | t | t rid]; [| destruct m as [rid | rid | | nw] | |];
+  intros hb0 [stt hb mlt id conn g] e s' o n [_ Hs] Ha E. unfold session_up in Hs. cbn in Hs.
+  destruct e as [t | t d m | t | t rid]; [| destruct m as [rid | rid | | nw] | discriminate Ha |];
     revert E; step_crush; intro E; inversion E; subst; cbn; intros C I; try discriminate; auto;
-    try (inversion I; subst; right; eexists; split; [reflexivity|reflexivity]).
-  all: subst conn; specialize (Hs eq_refl); bool_lia;
-       repeat match goal with H : _ || _ = _ |- _ => first [apply orb_true_iff in H | apply orb_false_iff in H] end;
-       bool_lia; unfold ST_ACTIVE, ST_RESENDREQ_AWAITING, ST_NETWORK_CONN_ESTABLISHED in *; intuition lia.
+    try (inversion I; subst; right; eexists; split; [reflexivity | split; reflexivity]).
 Qed.
 
 (* a Heartbeat echoing the outstanding id clears it - in sequence or BEHIND A GAP *)
@@ -402,22 +412,31 @@ Proof.
        unfold ST_ACTIVE, ST_RESENDREQ_AWAITING, ST_DISCONNECTED_BROKEN_CONN in *; lia.
 Qed.
 
-(* when the watchdog drops a logged-on session, either a probe was outstanding and its deadline has passed, or a
-   resend was awaited and the last-message clock is more than 2 hb s old *)
+(* when the watchdog drops a logged-on session a probe is outstanding and the clock - the time of the last valid
+   message, or of the probe if that is later - is more than 2 hb s old *)
 Lemma wd_step : forall hb s t s' o,
-  1 <= hb -> ok hb s -> s_id s <> Some 0 -> 1000 <= t -> tick t s = (s', o) -> In ODisconnect o ->
-  (exists n, s_id s = Some n /\ (n + 2 * hb) * 1000 < t)
-  \/ (s_state s = ST_RESENDREQ_AWAITING /\ 2 * hb * 1000 < t - s_mlt s).
+  0 <= hb -> ok hb s -> s_id s <> Some 0 -> tick t s = (s', o) -> In ODisconnect o ->
+  exists n, s_id s = Some n /\ 2 * hb * 1000 < t - s_mlt s.
 Proof.
-  intros hb [stt h mlt id conn g] t s' o Hhb [Hh Hs] Hi Ht E D. unfold session_up in Hs. cbn in Hh, Hs, Hi. subst h.
-  pose proof (div1000 t) as Hdiv.
-  revert E. step_crush; intro E; inversion E; subst; cbn in D;
-    try (exfalso; intuition discriminate).
-  all: bool_split; bool_lia; subst; try (specialize (Hs eq_refl)); bool_split; bool_lia; unfold_states.
-  all: first [ left; eexists; split; [reflexivity | lia]
-             | right; split; [assumption | lia]
-             | exfalso; lia
-             | exfalso; congruence ].
+  intros hb s t s' o Hhb [Hh Hs] Hi E D.
+  destruct (s_conn s) eqn:C.
+  - rewrite tick_up in E; [| split; auto | lia | assumption].
+    unfold tick_spec in E. rewrite Hh in E.
+    destruct (s_id s) as [n|] eqn:I.
+    + exists n. split; [reflexivity|].
+      destruct (2 * hb * 1000 <? t - s_mlt s) eqn:T; [bool_lia; lia|].
+      cbn [andb] in E. inversion E; subst o. destruct D.
+    + destruct ((hb - 1) * 1000 <? t - s_mlt s); inversion E; subst o; cbn in D; intuition discriminate.
+  - unfold tick in E. rewrite C in E. cbn in E. inversion E; subst o. destruct D.
+Qed.
+
+(* the last-message clock only ever moves to the time of the current event (or to 0 on disconnect) *)
+Lemma mlt_step : forall s e s' o, step s e = (s', o) ->
+  s_mlt s' = s_mlt s \/ s_mlt s' = ev_time e \/ s_mlt s' = 0.
+Proof.
+  intros [stt hb mlt id conn g] e s' o E.
+  destruct e as [t | t d m | t | t rid]; [| destruct m as [rid | rid | | nw] | |];
+    revert E; step_crush; intro E; inversion E; subst; cbn; auto.
 Qed.
 
 (* ------------------------------------------------------------------ C12_live_peer *)
@@ -429,46 +448,93 @@ Fixpoint sorted (evs : list ev) : Prop :=
 
 Definition wd_disconnect (r : row) : Prop := is_tick (r_ev r) = true /\ In ODisconnect (r_out r).
 
-(* a Heartbeat echoing id n that arrives no later than n + 2 hb seconds - whatever its sequence number *)
-Definition is_answer (hb n : Z) (r : row) : Prop :=
-  exists ta da v, r_ev r = Recv ta da (MHeartbeat (Some v)) /\ 0 <= da /\ parse_id v = n
-                  /\ ta <= (n + 2 * hb) * 1000.
+(* (A) the clock form.  The clock is restarted by every message that is finalized (in sequence; a SequenceReset
+   counts when NewSeqNo moves forward) and by every TestRequest the watchdog writes.  A peer for which no watchdog
+   iteration finds the clock more than 2 hb s old is never dropped - whether or not it answers TestRequests. *)
+Definition refresh (e : ev) : bool :=
+  match e with
+  | Recv _ d m => (d =? 0) && match m with MGapFill nw => 1 <=? nw | _ => true end
+  | _ => false
+  end.
 
-(* every TestRequest written by the watchdog (or send_test_req) at time t, i.e. with id t/1000, is answered later in the run *)
+Definition new_clock (e : ev) (o : list out) (last : Z) : Z :=
+  match e with
+  | Tick t => if existsb is_testreq o then t else last
+  | Recv t _ _ => if refresh e then t else last
+  | _ => last
+  end.
+
+Fixpoint clock_ok (hb last : Z) (tr : list row) : Prop :=
+  match tr with
+  | [] => True
+  | r :: rest =>
+      match r_ev r with Tick t => t - last <= 2 * hb * 1000 | _ => True end
+      /\ clock_ok hb (new_clock (r_ev r) (r_out r) last) rest
+  end.
+
+Lemma clock_step : forall hb s e s' o last,
+  ok hb s -> step s e = (s', o) -> (s_conn s = true -> last <= s_mlt s) ->
+  s_conn s' = true -> new_clock e o last <= s_mlt s'.
+Proof.
+  intros hb0 [stt hb mlt id conn g] e s' o last [_ Hs] E. unfold session_up in Hs. cbn in Hs.
+  destruct e as [t | t d m | t | t rid]; [| destruct m as [rid | rid | | nw] | |];
+    revert E; unfold new_clock, refresh; step_crush; intro E; inversion E; subst; cbn; intros P C;
+    try discriminate; try (specialize (P eq_refl)); try lia; try (apply P; reflexivity);
+    try (subst; specialize (Hs eq_refl)); bool_split; bool_lia; subst; unfold_states; try lia; try congruence.
+Qed.
+
+Lemma clock_no_wd : forall hb evs s last,
+  0 <= hb -> ok hb s -> s_id s <> Some 0 -> Forall (fun e => 1000 <= ev_time e) evs ->
+  (s_conn s = true -> last <= s_mlt s) -> clock_ok hb last (trace s evs) ->
+  Forall (fun r => ~ wd_disconnect r) (trace s evs).
+Proof.
+  intros hb evs. induction evs as [|e evs IH]; intros s last Hhb Hok Hid Hti HP HC; [constructor|].
+  cbn [trace] in *. destruct (step s e) as [s' o] eqn:E.
+  inversion Hti as [|? ? Ht Hti']; subst. cbn [clock_ok r_ev r_out] in HC. destruct HC as [H0 HC].
+  constructor.
+  - intros [Htick Hdisc]. cbn [r_ev r_out] in Htick, Hdisc.
+    destruct e as [t | | |]; try discriminate Htick. cbn [step] in E.
+    destruct (wd_step hb s t s' o Hhb Hok Hid E Hdisc) as [n [Hn Hold]].
+    assert (Hc : s_conn s = true).
+    { destruct (s_conn s) eqn:C; [reflexivity|]. unfold tick in E. rewrite C in E. cbn in E.
+      inversion E; subst o. destruct Hdisc. }
+    specialize (HP Hc). lia.
+  - apply (IH s' (new_clock e o last)); try assumption.
+    + eapply ok_step; eassumption.
+    + eapply id_nonzero_step; eassumption.
+    + intro Hc'. eapply clock_step; eassumption.
+Qed.
+
+(* (B) the answering form.  Every TestRequest the watchdog writes at time t (id t/1000) is answered later in the run
+   by a Heartbeat echoing the id - numbered in sequence or behind a gap - that arrives no later than t + 2 hb s. *)
+Definition is_answer (hb n dl : Z) (r : row) : Prop :=
+  exists ta da v, r_ev r = Recv ta da (MHeartbeat (Some v)) /\ 0 <= da /\ parse_id v = n
+                  /\ ta <= dl + 2 * hb * 1000.
+
 Fixpoint answers (hb : Z) (tr : list row) : Prop :=
   match tr with
   | [] => True
   | r :: rest =>
-      (forall t, probe_row r = Some t -> exists r', In r' rest /\ is_answer hb (t / 1000) r')
+      (forall t, probe_row r = Some t -> exists r', In r' rest /\ is_answer hb (t / 1000) t r')
       /\ answers hb rest
   end.
 
-(* while a resend is awaited no watchdog iteration finds the last-message clock older than 2 hb s
-   (the gap is closed, or in-sequence traffic resumes, in time) *)
-Fixpoint gap_ok (hb : Z) (s : st) (evs : list ev) : Prop :=
-  match evs with
-  | [] => True
-  | e :: r =>
-      match e with
-      | Tick t => s_conn s = true -> s_state s = ST_RESENDREQ_AWAITING -> t - s_mlt s <= 2 * hb * 1000
-      | _ => True
-      end /\ gap_ok hb (fst (step s e)) r
-  end.
-
 Definition pending_ok (hb : Z) (s : st) (tr : list row) : Prop :=
-  s_conn s = true -> forall n, s_id s = Some n -> exists r, In r tr /\ is_answer hb n r.
+  s_conn s = true -> forall n, s_id s = Some n -> exists r, In r tr /\ is_answer hb n (s_mlt s) r.
 
 Lemma in_trace_ev : forall s evs r, In r (trace s evs) -> In (r_ev r) evs.
 Proof. intros s evs r H. rewrite <- (trace_ev evs s). apply in_map. assumption. Qed.
 
 Lemma answering_no_wd : forall hb evs s,
-  1 <= hb -> ok hb s -> s_id s <> Some 0 -> sorted evs -> Forall (fun e => 1000 <= ev_time e) evs ->
-  gap_ok hb s evs -> answers hb (trace s evs) -> pending_ok hb s (trace s evs) ->
+  0 <= hb -> ok hb s -> s_id s <> Some 0 -> sorted evs -> Forall (fun e => 1000 <= ev_time e) evs ->
+  Forall (fun e => is_app_probe e = false) evs -> Forall (fun e => s_mlt s <= ev_time e) evs ->
+  answers hb (trace s evs) -> pending_ok hb s (trace s evs) ->
   Forall (fun r => ~ wd_disconnect r) (trace s evs).
 Proof.
-  intros hb evs. induction evs as [|e evs IH]; intros s Hhb Hok Hid Hso Hti Hgap Han Hpe; [constructor|].
-  cbn [trace] in *. cbn [gap_ok] in Hgap. destruct (step s e) as [s' o] eqn:E. cbn [fst] in Hgap.
-  destruct Hso as [Hhd Hso]. inversion Hti as [|? ? Ht Hti']; subst. destruct Hgap as [Hg0 Hgap].
+  intros hb evs. induction evs as [|e evs IH]; intros s Hhb Hok Hid Hso Hti Hna Hml Han Hpe; [constructor|].
+  cbn [trace] in *. destruct (step s e) as [s' o] eqn:E.
+  destruct Hso as [Hhd Hso]. inversion Hti as [|? ? Ht Hti']; subst.
+  inversion Hna as [|? ? Ha Hna']; subst. inversion Hml as [|? ? Hm0 Hml']; subst.
   cbn [answers] in Han. destruct Han as [Hprobe Han].
   pose proof (ok_step hb s e s' o Hok E) as Hok'.
   pose proof (id_nonzero_step s e s' o Hid Ht E) as Hid'.
@@ -479,62 +545,55 @@ Proof.
     assert (Hc : s_conn s = true).
     { destruct (s_conn s) eqn:C; [reflexivity|]. unfold tick in E. rewrite C in E. cbn in E.
       inversion E; subst o. destruct Hdisc. }
-    destruct (wd_step hb s t s' o Hhb Hok Hid Ht E Hdisc) as [[n [Hn Hlate]] | [Haw Hold]].
-    + destruct (Hpe Hc n Hn) as [r [[Hr | Hr] (ta & da & v & Hev & Hda & Hpar & Hdl)]].
-      * subst r. cbn [r_ev] in Hev. discriminate Hev.
-      * apply in_trace_ev in Hr. specialize (Hhd _ Hr). rewrite Hev in Hhd. cbn [ev_time] in Hhd. lia.
-    + specialize (Hg0 Hc Haw). lia.
+    destruct (wd_step hb s t s' o Hhb Hok Hid E Hdisc) as [n [Hn Hlate]].
+    destruct (Hpe Hc n Hn) as [r [[Hr | Hr] (ta & da & v & Hev & Hda & Hpar & Hdl)]].
+    + subst r. cbn [r_ev] in Hev. discriminate Hev.
+    + apply in_trace_ev in Hr. specialize (Hhd _ Hr). rewrite Hev in Hhd. cbn [ev_time] in Hhd. lia.
   - apply IH; try assumption.
-    (* the invariant for the remaining run *)
-    intros Hc' n Hn.
-    pose proof (conn_step s e s' o E Hc') as Hc.
-    destruct (id_origin_step hb s e s' o n Hok E Hc' Hn) as [Hold | [t [Hp Hnt]]].
-    + destruct (Hpe Hc n Hold) as [r [[Hr | Hr] Hans]].
-      * (* the answer would be this very step: then the id is cleared *)
-        exfalso. subst r. destruct Hans as (ta & da & v & Hev & Hda & Hpar & _). cbn [r_ev] in Hev. subst e.
-        rewrite <- Hpar in Hold.
-        pose proof (answer_clears s ta da v s' o Hc (proj2 Hok Hc) Hda Hold E). congruence.
-      * exists r. split; assumption.
-    + subst n. apply Hprobe. assumption.
+    + (* the clock stays at or before every later event *)
+      apply Forall_forall. intros e' He'.
+      rewrite Forall_forall in Hml'. specialize (Hml' e' He'). specialize (Hhd e' He').
+      rewrite Forall_forall in Hti'. specialize (Hti' e' He').
+      destruct (mlt_step s e s' o E) as [Q | [Q | Q]]; rewrite Q; lia.
+    + (* the invariant for the remaining run *)
+      intros Hc' n Hn.
+      pose proof (conn_step s e s' o E Hc') as Hc.
+      destruct (id_origin_step hb s e s' o n Hok Ha E Hc' Hn) as [[Hold Hmv] | [t [Hp [Hnt Hmt]]]].
+      * destruct (Hpe Hc n Hold) as [r [[Hr | Hr] Hans]].
+        -- (* the answer would be this very step: then the id is cleared *)
+           exfalso. subst r. destruct Hans as (ta & da & v & Hev & Hda & Hpar & _). cbn [r_ev] in Hev. subst e.
+           rewrite <- Hpar in Hold.
+           pose proof (answer_clears s ta da v s' o Hc (proj2 Hok Hc) Hda Hold E). congruence.
+        -- exists r. split; [assumption|].
+           destruct Hans as (ta & da & v & Hev & Hda & Hpar & Hdl). exists ta, da, v.
+           repeat split; try assumption. destruct Hmv as [Q | Q]; rewrite Q; lia.
+      * subst n. rewrite Hmt. apply Hprobe. assumption.
 Qed.
 
-(* scenarios whose inbound traffic is all in sequence (and contains no SequenceReset) *)
+Lemma live_peer_answers : forall hb evs s,
+  1 <= hb -> ok hb s -> s_id s = None -> sorted evs -> Forall (fun e => 1000 <= ev_time e) evs ->
+  Forall (fun e => is_app_probe e = false) evs -> Forall (fun e => s_mlt s <= ev_time e) evs ->
+  answers hb (trace s evs) ->
+  Forall (fun r => ~ wd_disconnect r) (trace s evs).
+Proof.
+  intros hb evs s Hhb Hok Hid So Hti Hna Hml An.
+  apply (answering_no_wd hb evs s); try assumption; try lia.
+  - congruence.
+  - intros _ n Hn. congruence.
+Qed.
+
+Lemma live_peer_clock : forall hb evs s t0,
+  1 <= hb -> ok hb s -> s_id s <> Some 0 -> s_mlt s = t0 -> Forall (fun e => 1000 <= ev_time e) evs ->
+  clock_ok hb t0 (trace s evs) ->
+  Forall (fun r => ~ wd_disconnect r) (trace s evs).
+Proof.
+  intros hb evs s t0 Hhb Hok Hid Hm Hti HC.
+  apply (clock_no_wd hb evs s t0); try assumption; try lia.
+Qed.
+
+(* traffic at most hb - 1 s apart: the watchdog emits nothing at all *)
 Definition plain (m : msg) : bool := match m with MGapFill _ => false | _ => true end.
-Definition inseq_ev (e : ev) : Prop :=
-  match e with Recv _ d m => d = 0 /\ plain m = true | _ => True end.
-Definition inseq_evb (e : ev) : bool :=
-  match e with Recv _ d m => (d =? 0) && plain m | _ => true end.
-Lemma inseq_evb_ok : forall e, inseq_evb e = true -> inseq_ev e.
-Proof.
-  intros [t | t d m | t | t rid] H; cbn in *; auto.
-  apply andb_true_iff in H. destruct H as [A B]. split; [apply Z.eqb_eq; assumption | assumption].
-Qed.
-Definition okA (hb : Z) (s : st) : Prop := s_hb s = hb /\ (s_conn s = true -> s_state s = ST_ACTIVE).
 
-Lemma okA_step : forall hb s e s' o, okA hb s -> inseq_ev e -> step s e = (s', o) -> okA hb s'.
-Proof.
-  intros hb [stt h mlt id conn g] e s' o [Hh Hs] Hin E. cbn in Hh, Hs. subst h.
-  destruct e as [t | t d m | t | t rid]; [| destruct Hin as [Hd Hp]; subst d; destruct m as [rid | rid | | nw]; [| | | discriminate Hp] | |];
-    revert E; step_crush; intro E; inversion E; subst; split; cbn; auto; try discriminate.
-  all: intro Hc; specialize (Hs Hc); bool_lia; subst;
-       unfold ST_ACTIVE, ST_RESENDREQ_AWAITING in *; try lia; try reflexivity.
-Qed.
-
-Lemma okA_ok : forall hb s, okA hb s -> ok hb s.
-Proof.
-  intros hb s [Hh Hs]. split; [assumption|]. intro Hc. unfold session_up. rewrite (Hs Hc), Z.eqb_refl. reflexivity.
-Qed.
-
-Lemma gap_ok_inseq : forall hb evs s, okA hb s -> Forall inseq_ev evs -> gap_ok hb s evs.
-Proof.
-  intros hb evs. induction evs as [|e evs IH]; intros s Hok Hin; [exact I|].
-  inversion Hin as [|? ? He Hin']; subst. cbn [gap_ok]. split.
-  - destruct e; try exact I. intros Hc Ha. destruct Hok as [_ Hs]. rewrite (Hs Hc) in Ha. discriminate Ha.
-  - destruct (step s e) as [s' o] eqn:E. cbn [fst]. apply IH; [eapply okA_step; eassumption | assumption].
-Qed.
-
-(* valid in-sequence traffic never pauses longer than G before an iteration: `fed G last evs`, last = time of the
-   last in-sequence message *)
 Fixpoint fed (G last : Z) (evs : list ev) : Prop :=
   match evs with
   | [] => True
@@ -560,7 +619,7 @@ Lemma fed_quiet : forall hb G evs s t0,
 Proof.
   intros hb G evs. induction evs as [|e evs IH]; intros s t0 Hhb HG I F; [split; constructor|].
   destruct e as [t | t d m | t | t rid]; cbn [fed] in F.
-  - destruct F as [Fl F]. cbn [trace step]. rewrite (tick_idle t s hb t0 I Hhb) by lia.
+  - destruct F as [Fl F]. cbn [trace step]. rewrite (tick_idle t s hb t0 (idle_at_up _ _ _ I) Hhb) by lia.
     destruct (IH s t0 Hhb HG I F) as [A B].
     split; constructor; auto; cbn; try (split; [tauto | reflexivity]).
   - destruct F as (Hd & Hp & F). subst d. cbn [trace step].
@@ -579,36 +638,7 @@ Proof.
     split; [intuition discriminate | reflexivity].
 Qed.
 
-(* the general form: out-of-sequence traffic allowed, answers count wherever they are numbered *)
-Lemma live_peer_gaps : forall hb evs s,
-  1 <= hb -> ok hb s -> s_id s = None -> sorted evs -> Forall (fun e => 1000 <= ev_time e) evs ->
-  gap_ok hb s evs -> answers hb (trace s evs) ->
-  Forall (fun r => ~ wd_disconnect r) (trace s evs).
-Proof.
-  intros hb evs s Hhb Hok Hid So Hti Hg An.
-  apply (answering_no_wd hb evs s); try assumption.
-  - congruence.
-  - intros _ n Hn. congruence.
-Qed.
-
-Lemma live_peer : forall hb evs s t0,
-  1 <= hb -> idle_at s hb t0 -> Forall (fun e => 1000 <= ev_time e) evs ->
-  (fed ((hb - 1) * 1000) t0 evs \/ (sorted evs /\ Forall inseq_ev evs /\ answers hb (trace s evs))) ->
-  Forall (fun r => ~ wd_disconnect r) (trace s evs).
-Proof.
-  intros hb evs s t0 Hhb I Hti [F | (So & Hin & An)].
-  - destruct (fed_quiet hb ((hb - 1) * 1000) evs s t0) as [_ B]; [lia | lia | assumption | assumption |].
-    eapply Forall_impl; [| exact B]. intros r [ND _] [_ D]. auto.
-  - destruct I as ([Hc Hs] & Hh & Hi & Hm & Hg).
-    assert (HA : okA hb s) by (split; auto).
-    apply (live_peer_gaps hb evs s); try assumption.
-    + apply okA_ok; assumption.
-    + apply gap_ok_inseq; assumption.
-Qed.
-
 (* ------------------------------------------------------------------ C12_single_outstanding *)
-Definition no_raw (evs : list ev) : Prop := Forall (fun e => is_raw e = false) evs.
-
 Lemma dead_silent : forall evs s r,
   s_conn s = false -> In r (trace s evs) -> writes_testreq r = false.
 Proof.
@@ -618,51 +648,62 @@ Proof.
   destruct Hin as [Hr | Hr]; [subst r; exact W | eapply IH; eassumption].
 Qed.
 
-(* while id n is outstanding, the next TestRequest frame is preceded by a Heartbeat echoing n *)
-Lemma pending_blocks : forall evs s n k rk,
-  s_id s = Some n -> n <> 0 -> no_raw evs ->
-  nth_error (trace s evs) k = Some rk -> writes_testreq rk = true ->
+Lemma writes_of_frame : forall r f, In f (r_out r) -> is_testreq f = true -> writes_testreq r = true.
+Proof. intros r f Hf Hq. unfold writes_testreq. apply existsb_exists. exists f. split; assumption. Qed.
+
+(* while id n is outstanding, a TestRequest frame carries n unless a Heartbeat echoing n came first *)
+Lemma pending_blocks : forall evs s n k rk f,
+  s_id s = Some n -> n <> 0 ->
+  nth_error (trace s evs) k = Some rk -> In f (r_out rk) -> is_testreq f = true ->
+  f = testreq_frame n \/
   exists j rj ta da v, (j < k)%nat /\ nth_error (trace s evs) j = Some rj
-                    /\ r_ev rj = Recv ta da (MHeartbeat (Some v)) /\ parse_id v = n.
+                       /\ r_ev rj = Recv ta da (MHeartbeat (Some v)) /\ parse_id v = n.
 Proof.
-  induction evs as [|e evs IH]; intros s n k rk Hi Hn Hr Hk W; [destruct k; discriminate Hk|].
-  inversion Hr as [|? ? Hre Hr']; subst.
+  induction evs as [|e evs IH]; intros s n k rk f Hi Hn Hk Hf Hq; [destruct k; discriminate Hk|].
   cbn [trace] in *. destruct (step s e) as [s' o] eqn:E.
-  destruct (pending_step s e n s' o Hi Hn Hre E) as [Wo Hnext].
+  destruct (pending_step s e n s' o Hi Hn E) as [Wo Hnext].
   destruct k as [|k].
-  - cbn in Hk. inversion Hk; subst rk. unfold writes_testreq in W. cbn in W. congruence.
+  - cbn in Hk. inversion Hk; subst rk. left. apply Wo; assumption.
   - cbn [nth_error] in Hk.
     destruct Hnext as [Hsame | [Hdead | (ta & da & v & He & Hp)]].
-    + destruct (IH s' n k rk Hsame Hn Hr' Hk W) as (j & rj & ta & da & v & Hj & Hnj & Hev & Hp).
-      exists (S j), rj, ta, da, v. repeat split; try assumption. lia.
-    + pose proof (dead_silent evs s' rk Hdead (nth_error_In _ _ Hk)). congruence.
-    + exists 0%nat, (mkRow e o s'), ta, da, v. repeat split; try assumption. lia.
+    + destruct (IH s' n k rk f Hsame Hn Hk Hf Hq) as [Q | (j & rj & ta & da & v & Hj & Hnj & Hev & Hp)]; [left; exact Q|].
+      right. exists (S j), rj, ta, da, v. repeat split; try assumption. lia.
+    + pose proof (dead_silent evs s' rk Hdead (nth_error_In _ _ Hk)) as D.
+      rewrite (writes_of_frame rk f Hf Hq) in D. discriminate D.
+    + right. exists 0%nat, (mkRow e o s'), ta, da, v. repeat split; try assumption. lia.
 Qed.
 
-Lemma single_outstanding : forall evs s i k ri rk,
-  s_id s <> Some 0 -> no_raw evs -> Forall (fun e => 1000 <= ev_time e) evs ->
+(* at most one TestReqID outstanding: of two TestRequest frames the later one repeats the id of the earlier one unless
+   a Heartbeat echoing that id was received in between - application calls of send_msg included *)
+Lemma single_outstanding : forall evs s i k ri rk fi fk,
+  s_id s <> Some 0 -> Forall (fun e => 1000 <= ev_time e) evs ->
   (i < k)%nat ->
   nth_error (trace s evs) i = Some ri -> nth_error (trace s evs) k = Some rk ->
-  writes_testreq ri = true -> writes_testreq rk = true ->
-  exists j rj ta da v, (i < j < k)%nat /\ nth_error (trace s evs) j = Some rj
-                    /\ r_ev rj = Recv ta da (MHeartbeat (Some v))
-                    /\ parse_id v = ev_time (r_ev ri) / 1000.
+  In fi (r_out ri) -> is_testreq fi = true -> In fk (r_out rk) -> is_testreq fk = true ->
+  exists n, fi = testreq_frame n /\
+    (fk = fi \/
+     exists j rj ta da v, (i < j < k)%nat /\ nth_error (trace s evs) j = Some rj
+                          /\ r_ev rj = Recv ta da (MHeartbeat (Some v)) /\ parse_id v = n).
 Proof.
-  induction evs as [|e evs IH]; intros s i k ri rk Hid Hr Hti Hik Hi Hk Wi Wk; [destruct i; discriminate Hi|].
-  inversion Hr as [|? ? Hre Hr']; subst. inversion Hti as [|? ? Ht Hti']; subst.
+  induction evs as [|e evs IH]; intros s i k ri rk fi fk Hid Hti Hik Hi Hk Hfi Hqi Hfk Hqk; [destruct i; discriminate Hi|].
+  inversion Hti as [|? ? Ht Hti']; subst.
   cbn [trace] in *. destruct (step s e) as [s' o] eqn:E.
   destruct k as [|k]; [lia|]. cbn [nth_error] in Hk.
+  pose proof (id_nonzero_step s e s' o Hid Ht E) as Hid'.
   destruct i as [|i].
-  - cbn in Hi. inversion Hi; subst ri. cbn [r_ev]. unfold writes_testreq in Wi. cbn [r_out] in Wi.
-    destruct (probe_step s e s' o Hre E Wi) as [[Hnew | Hdead] _].
-    + assert (Hn : ev_time e / 1000 <> 0) by (pose proof (div1000_pos _ Ht); lia).
-      destruct (pending_blocks evs s' _ k rk Hnew Hn Hr' Hk Wk) as (j & rj & ta & da & v & Hj & Hnj & Hev & Hp).
-      exists (S j), rj, ta, da, v. repeat split; try assumption; lia.
-    + pose proof (dead_silent evs s' rk Hdead (nth_error_In _ _ Hk)). congruence.
+  - cbn in Hi. inversion Hi; subst ri. cbn [r_out] in Hfi.
+    destruct (frame_step s e s' o fi E Hfi Hqi) as [n [Hfn [Hnew | Hdead]]].
+    + exists n. split; [assumption|].
+      assert (Hn : n <> 0) by congruence.
+      destruct (pending_blocks evs s' n k rk fk Hnew Hn Hk Hfk Hqk) as [Q | (j & rj & ta & da & v & Hj & Hnj & Hev & Hp)].
+      * left. congruence.
+      * right. exists (S j), rj, ta, da, v. repeat split; try assumption; lia.
+    + pose proof (dead_silent evs s' rk Hdead (nth_error_In _ _ Hk)) as D.
+      rewrite (writes_of_frame rk fk Hfk Hqk) in D. discriminate D.
   - cbn [nth_error] in Hi.
-    pose proof (id_nonzero_step s e s' o Hid Ht E) as Hid'.
-    destruct (IH s' i k ri rk Hid' Hr' Hti' ltac:(lia) Hi Hk Wi Wk) as (j & rj & ta & da & v & Hj & Hnj & Hev & Hp).
-    exists (S j), rj, ta, da, v. repeat split; try assumption; lia.
+    destruct (IH s' i k ri rk fi fk Hid' Hti' ltac:(lia) Hi Hk Hfi Hqi Hfk Hqk) as [n [Hfn [Q | (j & rj & ta & da & v & Hj & Hnj & Hev & Hp)]]];
+      exists n; (split; [assumption|]); [left; exact Q|].
+    right. exists (S j), rj, ta, da, v. repeat split; try assumption; lia.
 Qed.
 
 (* ------------------------------------------------------------------ inbound TestRequest / Heartbeat *)
@@ -821,88 +862,41 @@ Proof.
   destruct (g <=? nw - 1); reflexivity.
 Qed.
 
-(* the silence clock while a resend is awaited: traffic that is all behind the unfilled gap does not refresh it, no
-   TestRequest is written (the probe test applies to ACTIVE only), and as long as the clock is at most 2 hb s old
-   nothing happens ... *)
-Definition behind_gap_ev (hb t0 : Z) (e : ev) : Prop :=
-  match e with
-  | Tick t => t - t0 <= 2 * hb * 1000
-  | Recv _ d m => 0 < d /\ plain m = true
-  | _ => False
-  end.
-
-Lemma behind_gap_quiet : forall hb t0 evs s,
-  awaiting s -> s_hb s = hb -> s_id s = None -> s_mlt s = t0 ->
-  Forall (behind_gap_ev hb t0) evs ->
-  final s evs = s
-  /\ Forall (fun r => writes_testreq r = false /\ ~ In ODisconnect (r_out r)
-                      /\ (is_tick (r_ev r) = true -> r_out r = [])) (trace s evs).
+(* the silence clock while a resend is awaited: traffic behind the gap does not restart it, and - since the repair -
+   the watchdog probes in this state exactly as in ACTIVE (tick_idle / tick_probe / tick_waiting / tick_timeout are
+   stated for `up`): awaiting, nothing outstanding, clock t0 more than hb - 1 s old => TestRequest *)
+Lemma awaiting_up : forall s, awaiting s -> up s.
 Proof.
-  intros hb t0 evs. induction evs as [|e evs IH]; intros s A Hh Hi Hm F; [split; [reflexivity | constructor]|].
-  apply Forall_cons_iff in F. destruct F as [He F'].
-  assert (E : exists o, step s e = (s, o) /\ existsb is_testreq o = false /\ ~ In ODisconnect o
-                        /\ (is_tick e = true -> o = [])).
-  { destruct e as [t | t d m | t | t rid]; cbn [behind_gap_ev] in He.
-    - exists []. cbn [step]. split; [| split; [reflexivity | split; [tauto | reflexivity]]].
-      destruct A as [Hc Hs]. destruct s as [stt h mlt id conn g]. cbn in Hc, Hs, Hi, Hh, Hm. subst stt h mlt id conn.
-      unfold tick. cbn [s_conn s_state s_hb s_mlt s_id negb].
-      replace (ST_RESENDREQ_AWAITING =? ST_ACTIVE) with false by reflexivity.
-      cbn [andb s_mlt s_hb s_id]. rewrite thr_dead_eq.
-      replace (2 * hb * 1000 <? t - t0) with false by (symmetry; apply Z.ltb_ge; lia).
-      rewrite andb_false_r. reflexivity.
-    - destruct He as [Hd Hp]. cbn [step]. rewrite recv_behind_gap_awaiting by assumption.
-      destruct m as [r | r | | nw]; [| | | discriminate Hp]; cbn [dispatch]; try rewrite Hi;
-        eexists; (split; [reflexivity|]); cbn; repeat split; try discriminate; intuition discriminate.
-    - destruct He.
-    - destruct He. }
-  destruct E as [o [E [W [D T]]]].
-  cbn [trace]. rewrite final_cons, E. cbn [fst].
-  destruct (IH s A Hh Hi Hm F') as [Fi Fo].
-  split; [exact Fi|]. constructor; [cbn; auto | exact Fo].
+  intros s [Hc Hs]. split; [assumption|]. unfold session_up. rewrite Hs, Z.eqb_refl. apply orb_true_r.
 Qed.
 
-(* ... and the first iteration that finds it older drops the peer - unprobed, whatever it sends behind the gap *)
-Lemma gap_timeout : forall now s,
-  awaiting s -> s_id s = None -> s_mlt s <> 0 -> 2 * s_hb s * 1000 < now - s_mlt s ->
-  tick now s = (dead_st (s_hb s), [ODisconnect]).
+Lemma awaiting_probed : forall now s hb t0,
+  awaiting s -> s_hb s = hb -> s_id s = None -> s_mlt s = t0 -> 0 <= hb -> (hb - 1) * 1000 < now - t0 ->
+  tick now s = (probing_of s now, [testreq_frame (now / 1000)]).
 Proof.
-  intros now [stt hb mlt id conn g] [Hc Hs] Hi Hm Hl. cbn [s_conn s_state s_hb s_mlt s_id] in Hc, Hs, Hi, Hm, Hl. subst.
-  unfold tick. cbn [s_conn s_state s_hb s_mlt s_id negb].
-  replace (ST_RESENDREQ_AWAITING =? ST_ACTIVE) with false by reflexivity.
-  cbn [andb s_mlt s_hb s_id]. rewrite thr_dead_eq.
-  replace (mlt =? 0) with false by (symmetry; apply Z.eqb_neq; assumption).
-  replace (2 * hb * 1000 <? now - mlt) with true by (symmetry; apply Z.ltb_lt; lia).
-  reflexivity.
+  intros now s hb t0 A Hh Hi Hm Hhb Hgt.
+  apply (tick_probe now s hb t0); try assumption. repeat split; try assumption; apply awaiting_up; assumption.
 Qed.
 
-(* ------------------------------------------------------------------ small intervals, other states *)
-(* hb = 0: probe and disconnect in the same iteration whenever time.time() is not a whole second *)
-Lemma hb0_immediate : forall now s t0,
-  idle_at s 0 t0 -> 1000 <= now -> -1000 < now - t0 -> now mod 1000 <> 0 ->
-  tick now s = (dead_st 0, [testreq_frame (now / 1000); ODisconnect]).
+Lemma behind_gap_keeps_clock : forall now d m s, awaiting s -> 0 < d -> plain m = true -> s_id s = None ->
+  fst (recv now d m s) = s.
 Proof.
-  intros now s t0 (L & Hh & Hi & Hm & Hg) Hnow Hgt Hmod.
-  rewrite tick_live; [| assumption | lia | congruence].
-  unfold tick_spec. rewrite Hi, Hh, Hm.
-  replace ((0 - 1) * 1000 <? now - t0) with true by (symmetry; apply Z.ltb_lt; lia).
-  pose proof (div1000_pos now Hnow). pose proof (Z.div_mod now 1000 ltac:(lia)). pose proof (Z.mod_pos_bound now 1000 ltac:(lia)).
-  replace (now / 1000 =? 0) with false by (symmetry; apply Z.eqb_neq; lia).
-  replace (2 * 0 * 1000 <? now - now / 1000 * 1000) with true by (symmetry; apply Z.ltb_lt; lia).
-  reflexivity.
+  intros now d m s A Hd Hp Hi. rewrite recv_behind_gap_awaiting by assumption.
+  destruct m as [r | r | | nw]; [| | | discriminate Hp]; cbn [dispatch]; try rewrite Hi; reflexivity.
 Qed.
 
-(* outside ACTIVE only the last-message test applies: silence of more than 2 hb s drops the connection,
-   and a connection on which nothing was ever received (last = 0.0) is never dropped *)
+(* ------------------------------------------------------------------ other states *)
+(* outside the logged-on states (handshake) only the last-message test applies: silence of more than 2 hb s drops
+   the connection, and a connection on which nothing was ever received (last = 0.0) is never dropped *)
 Lemma nonactive_tick : forall now s,
-  s_conn s = true -> s_state s <> ST_ACTIVE -> ST_DISCONNECTED_BROKEN_CONN < s_state s -> s_id s = None ->
+  s_conn s = true -> session_up s = false -> ST_DISCONNECTED_BROKEN_CONN < s_state s -> s_id s = None ->
   tick now s =
   if negb (s_mlt s =? 0) && (2 * s_hb s * 1000 <? now - s_mlt s)
   then (dead_st (s_hb s), [ODisconnect]) else (s, []).
 Proof.
   intros now [stt hb mlt id conn g] Hc Hs Hb Hi. cbn in Hc, Hs, Hb, Hi. subst.
-  unfold tick. cbn [s_conn s_state s_hb s_mlt s_id negb].
-  replace (stt =? ST_ACTIVE) with false by (symmetry; apply Z.eqb_neq; assumption).
-  cbn [andb s_mlt s_hb]. rewrite thr_dead_eq.
+  unfold tick. cbn [s_conn negb]. rewrite Hs.
+  cbn [andb s_mlt s_hb s_id]. rewrite thr_dead_eq.
   destruct (negb (mlt =? 0) && (2 * hb * 1000 <? now - mlt)); [|reflexivity].
   unfold disconnect. cbn [s_state]. apply Z.ltb_lt in Hb. rewrite Hb. reflexivity.
 Qed.
@@ -910,17 +904,16 @@ Qed.
 (* int(time.time()) = 0 (the first second of the epoch) makes the id falsy but not None:
    the next due probe raises inside the loop before its sleep *)
 Lemma epoch_spin : forall now s,
-  live s -> s_id s = Some 0 -> (s_hb s - 1) * 1000 < now - s_mlt s -> tick now s = (s, [OSpin]).
+  up s -> s_id s = Some 0 -> (s_hb s - 1) * 1000 < now - s_mlt s -> tick now s = (s, [OSpin]).
 Proof.
   intros now [stt hb mlt id conn g] [Hc Hs] Hi Hf. cbn in Hc, Hs, Hi, Hf. subst.
-  unfold tick. cbn [s_conn s_state s_hb s_mlt s_id negb].
-  rewrite Z.eqb_refl, thr_probe_eq. cbn [andb].
+  unfold tick. cbn [s_conn negb]. rewrite Hs, thr_probe_eq. cbn [andb s_hb s_mlt s_id].
   replace ((hb - 1) * 1000 <? now - mlt) with true by (symmetry; apply Z.ltb_lt; lia).
   reflexivity.
 Qed.
 
-(* ------------------------------------------------------------------ witnesses *)
-(* merge of a tick train and a train of application messages, time ordered, ticks first at equal times *)
+(* ------------------------------------------------------------------ witnesses and non-vacuity *)
+(* merge of a tick train and a train of messages, time ordered, ticks first at equal times *)
 Fixpoint merge_fuel (fuel : nat) (a b : list ev) : list ev :=
   match fuel with
   | O => []
@@ -939,6 +932,9 @@ Fixpoint app_msgs (t period : Z) (k : nat) : list ev :=
 
 Definition active0 (hb t0 : Z) : st := mkSt ST_ACTIVE hb t0 None true 0.
 
+Lemma active0_ok : forall hb t0, ok hb (active0 hb t0).
+Proof. intros. split; [reflexivity | intros _; reflexivity]. Qed.
+
 Fixpoint sortedb (evs : list ev) : bool :=
   match evs with
   | [] => true
@@ -952,6 +948,16 @@ Proof.
   intros e' Hin. rewrite forallb_forall in A. specialize (A e' Hin). lia.
 Qed.
 
+Lemma forallb_Forall : forall (P : ev -> Prop) (b : ev -> bool) l,
+  (forall e, b e = true -> P e) -> forallb b l = true -> Forall P l.
+Proof.
+  intros P b l H F. apply Forall_forall. intros e He. rewrite forallb_forall in F. apply H, F, He.
+Qed.
+
+Definition late_enough (e : ev) : bool := 1000 <=? ev_time e.
+Lemma late_enough_ok : forall e, late_enough e = true -> 1000 <= ev_time e.
+Proof. intros e H. unfold late_enough in H. lia. Qed.
+
 (* maximal pause of valid inbound traffic before any event of the run (boolean form) *)
 Fixpoint gap_le (G last : Z) (evs : list ev) : bool :=
   match evs with
@@ -960,85 +966,23 @@ Fixpoint gap_le (G last : Z) (evs : list ev) : bool :=
   | e :: r => (ev_time e - last <=? G) && gap_le G last r
   end.
 
-Definition wd_disconnectb (r : row) : bool :=
-  is_tick (r_ev r) && existsb (fun o => match o with ODisconnect => true | _ => false end) (r_out r).
-
-Lemma wd_disconnectb_ok : forall r, wd_disconnectb r = true -> wd_disconnect r.
-Proof.
-  intros r H. unfold wd_disconnectb in H. apply andb_true_iff in H. destruct H as [A B].
-  split; [assumption|]. apply existsb_exists in B. destruct B as [o [Hin Ho]].
-  destruct o; try discriminate. assumption.
-Qed.
-
 Definition only_app (evs : list ev) : bool :=
   forallb (fun e => match e with Tick _ | Recv _ 0 MApp => true | _ => false end) evs.
 
-(* D19, hb = 30: application traffic every 29.5 s, never a pause above one interval; the probe written at
-   +29.25 s is never answered; the watchdog drops the session at +89.25 s *)
-Definition d19_evs : list ev := merge (ticks 1000000250 120) (app_msgs 1000029500 29500 4).
+Fixpoint clock_okb (hb last : Z) (tr : list row) : bool :=
+  match tr with
+  | [] => true
+  | r :: rest =>
+      match r_ev r with Tick t => t - last <=? 2 * hb * 1000 | _ => true end
+      && clock_okb hb (new_clock (r_ev r) (r_out r) last) rest
+  end.
 
-Lemma unanswered_probe_refuted :
-  exists hb t0 evs,
-    2 <= hb /\ sorted evs /\ only_app evs = true /\ gap_le (hb * 1000) t0 evs = true /\
-    exists r, In r (trace (active0 hb t0) evs) /\ wd_disconnect r.
+Lemma clock_okb_ok : forall hb tr last, clock_okb hb last tr = true -> clock_ok hb last tr.
 Proof.
-  exists 30, 1000000000, d19_evs.
-  split; [lia|]. split; [apply sortedb_sorted; vm_compute; reflexivity|].
-  split; [vm_compute; reflexivity|]. split; [vm_compute; reflexivity|].
-  assert (H : existsb wd_disconnectb (trace (active0 30 1000000000) d19_evs) = true) by (vm_compute; reflexivity).
-  apply existsb_exists in H. destruct H as [r [Hin Hr]]. exists r. split; [assumption | apply wd_disconnectb_ok; assumption].
+  intros hb tr. induction tr as [|r rest IH]; intros last H; [exact I|].
+  cbn [clock_okb] in H. apply andb_true_iff in H. destruct H as [A B]. cbn [clock_ok]. split; [|auto].
+  destruct (r_ev r); try exact I. apply Z.leb_le. exact A.
 Qed.
-
-(* hb = 1: the probe threshold hb - 1 is 0; traffic every 0.5 s, probe at the first iteration, dropped at +2.25 s *)
-Definition d19_hb1_evs : list ev := merge (ticks 1000000250 5) (app_msgs 1000000500 500 9).
-
-Lemma unanswered_probe_hb1_refuted :
-  exists evs,
-    sorted evs /\ only_app evs = true /\ gap_le 500 1000000000 evs = true /\
-    exists r, In r (trace (active0 1 1000000000) evs) /\ wd_disconnect r.
-Proof.
-  exists d19_hb1_evs.
-  split; [apply sortedb_sorted; vm_compute; reflexivity|].
-  split; [vm_compute; reflexivity|]. split; [vm_compute; reflexivity|].
-  assert (H : existsb wd_disconnectb (trace (active0 1 1000000000) d19_hb1_evs) = true) by (vm_compute; reflexivity).
-  apply existsb_exists in H. destruct H as [r [Hin Hr]]. exists r. split; [assumption | apply wd_disconnectb_ok; assumption].
-Qed.
-
-(* the TESTREQUEST gate of send_msg lets a second TestRequest through exactly when one is outstanding *)
-Definition raw_evs : list ev := ticks 1000000000 6 ++ [AppRaw 1000006000 [88; 49]%N].
-
-Lemma raw_testrequest_refuted :
-  exists evs i k ri rk,
-    (i < k)%nat /\ nth_error (trace (active0 5 1000000000) evs) i = Some ri
-    /\ nth_error (trace (active0 5 1000000000) evs) k = Some rk
-    /\ writes_testreq ri = true /\ writes_testreq rk = true
-    /\ forall j rj, (i < j < k)%nat -> nth_error (trace (active0 5 1000000000) evs) j = Some rj ->
-                    is_tick (r_ev rj) = true.
-Proof.
-  exists raw_evs, 5%nat, 6%nat.
-  eexists. eexists. split; [lia|]. split; [vm_compute; reflexivity|]. split; [vm_compute; reflexivity|].
-  split; [reflexivity|]. split; [reflexivity|]. intros j rj Hj. lia.
-Qed.
-
-(* ------------------------------------------------------------------ non-vacuity *)
-(* hb = 30, first iteration at +0.25 s: k = 29 quiet iterations, probe at +29.25 s, m = 59 more, dropped at +89.25 s *)
-Example dead_peer_instance :
-  outs (active0 30 1000000000) (ticks 1000000250 (29 + 1 + (59 + 1))) =
-    repeat [] 29 ++ [[testreq_frame 1000029]] ++ repeat [] 59 ++ [[ODisconnect]]
-  /\ final (active0 30 1000000000) (ticks 1000000250 (29 + 1 + (59 + 1))) = dead_st 30.
-Proof.
-  pose proof (dead_peer_run 30 (active0 30 1000000000) 1000000000 1000000250 29 59
-                ltac:(lia) ltac:(repeat split; reflexivity) ltac:(lia)
-                ltac:(split; [vm_compute; discriminate | vm_compute; reflexivity])
-                ltac:(split; [vm_compute; discriminate | vm_compute; reflexivity])) as (A & B & _).
-  split; [exact A | exact B].
-Qed.
-
-(* a peer that answers: silent but for a Heartbeat echoing each probe 50 s after it (hb = 30, two probe cycles) *)
-Definition answering_evs : list ev :=
-  merge (ticks 1000000250 170)
-        [Recv 1000079250 0 (MHeartbeat (Some [49;48;48;48;48;50;57]%N));
-         Recv 1000158250 0 (MHeartbeat (Some [49;48;48;48;49;48;57]%N))].
 
 Fixpoint answersb (hb : Z) (tr : list row) : bool :=
   match tr with
@@ -1048,7 +992,7 @@ Fixpoint answersb (hb : Z) (tr : list row) : bool :=
       | Some t =>
           existsb (fun r' => match r_ev r' with
                              | Recv ta da (MHeartbeat (Some v)) =>
-                                 (0 <=? da) && (parse_id v =? t / 1000) && (ta <=? (t / 1000 + 2 * hb) * 1000)
+                                 (0 <=? da) && (parse_id v =? t / 1000) && (ta <=? t + 2 * hb * 1000)
                              | _ => false end) rest
       | None => true
       end && answersb hb rest
@@ -1066,6 +1010,84 @@ Proof.
   split; [exact Ev|]. repeat split; lia.
 Qed.
 
+Definition not_app_probe (e : ev) : bool := negb (is_app_probe e).
+Lemma not_app_probe_ok : forall e, not_app_probe e = true -> is_app_probe e = false.
+Proof. intros e H. unfold not_app_probe in H. apply negb_true_iff in H. exact H. Qed.
+
+(* D19, hb = 30, repaired: application traffic every 29.5 s, never a pause above one interval; the probe written at
+   +29.25 s is never answered - and the peer is NOT dropped, because the clock never gets 2 hb s old *)
+Definition d19_evs : list ev := merge (ticks 1000000250 150) (app_msgs 1000029500 29500 5).
+
+Example unanswered_probe_spared :
+  sorted d19_evs /\ only_app d19_evs = true /\ gap_le (30 * 1000) 1000000000 d19_evs = true
+  /\ clock_ok 30 1000000000 (trace (active0 30 1000000000) d19_evs)
+  /\ (length (filter writes_testreq (trace (active0 30 1000000000) d19_evs)) = 1)%nat
+  /\ Forall (fun r => ~ wd_disconnect r) (trace (active0 30 1000000000) d19_evs).
+Proof.
+  assert (C : clock_ok 30 1000000000 (trace (active0 30 1000000000) d19_evs))
+    by (apply clock_okb_ok; vm_compute; reflexivity).
+  split; [apply sortedb_sorted; vm_compute; reflexivity|].
+  split; [vm_compute; reflexivity|]. split; [vm_compute; reflexivity|]. split; [exact C|].
+  split; [vm_compute; reflexivity|].
+  apply (live_peer_clock 30 d19_evs (active0 30 1000000000) 1000000000); try assumption; try lia; try reflexivity.
+  - apply active0_ok.
+  - discriminate.
+  - apply (forallb_Forall _ late_enough); [exact late_enough_ok | vm_compute; reflexivity].
+Qed.
+
+(* hb = 1 (probe threshold 0): traffic every 0.5 s, probed at the first iteration, never answered, not dropped *)
+Definition d19_hb1_evs : list ev := merge (ticks 1000000250 8) (app_msgs 1000000500 500 15).
+
+Example unanswered_probe_hb1_spared :
+  sorted d19_hb1_evs /\ only_app d19_hb1_evs = true /\ gap_le 500 1000000000 d19_hb1_evs = true
+  /\ (length (filter writes_testreq (trace (active0 1 1000000000) d19_hb1_evs)) = 1)%nat
+  /\ Forall (fun r => ~ wd_disconnect r) (trace (active0 1 1000000000) d19_hb1_evs).
+Proof.
+  split; [apply sortedb_sorted; vm_compute; reflexivity|].
+  split; [vm_compute; reflexivity|]. split; [vm_compute; reflexivity|]. split; [vm_compute; reflexivity|].
+  apply (live_peer_clock 1 d19_hb1_evs (active0 1 1000000000) 1000000000); try lia; try reflexivity.
+  - apply active0_ok.
+  - discriminate.
+  - apply (forallb_Forall _ late_enough); [exact late_enough_ok | vm_compute; reflexivity].
+  - apply clock_okb_ok; vm_compute; reflexivity.
+Qed.
+
+(* the TESTREQUEST gate of send_msg, repaired: while the watchdog's probe 1000005 is outstanding an application
+   TestRequest with another id is refused; one repeating the pending id is let through *)
+Definition raw_evs : list ev :=
+  ticks 1000000000 6 ++ [AppRaw 1000006000 [88; 49]%N; AppRaw 1000006500 [49; 48; 48; 48; 48; 48; 53]%N].
+
+Example raw_testrequest_refused :
+  map r_out (skipn 5 (trace (active0 5 1000000000) raw_evs)) =
+  [[testreq_frame 1000005]; [ORaise]; [testreq_frame 1000005]].
+Proof. vm_compute. reflexivity. Qed.
+
+(* hb = 30, first iteration at +0.25 s: k = 29 quiet iterations, probe at +29.25 s, m = 60 more, dropped at +90.25 s *)
+Example dead_peer_instance :
+  outs (active0 30 1000000000) (ticks 1000000250 (29 + 1 + (60 + 1))) =
+    repeat [] 29 ++ [[testreq_frame 1000029]] ++ repeat [] 60 ++ [[ODisconnect]]
+  /\ final (active0 30 1000000000) (ticks 1000000250 (29 + 1 + (60 + 1))) = dead_st 30.
+Proof.
+  pose proof (dead_peer_run 30 (active0 30 1000000000) 1000000000 1000000250 29 60
+                ltac:(lia) ltac:(repeat split; reflexivity) ltac:(lia)
+                ltac:(split; [vm_compute; discriminate | vm_compute; reflexivity])
+                ltac:(reflexivity)) as (A & B & _).
+  split; [exact A | exact B].
+Qed.
+
+(* a peer that answers: silent but for a Heartbeat echoing each probe 50 s after it (hb = 30, two probe cycles) *)
+Definition answering_evs : list ev :=
+  merge (ticks 1000000250 170)
+        [Recv 1000079250 0 (MHeartbeat (Some [49;48;48;48;48;50;57]%N));
+         Recv 1000158250 0 (MHeartbeat (Some [49;48;48;48;49;48;57]%N))].
+
+Ltac live_answers_example evs :=
+  apply (live_peer_answers 30 evs (active0 30 1000000000)); try assumption; try lia; try reflexivity;
+  [ apply active0_ok
+  | apply (forallb_Forall _ late_enough); [exact late_enough_ok | vm_compute; reflexivity]
+  | apply (forallb_Forall _ not_app_probe); [exact not_app_probe_ok | vm_compute; reflexivity]
+  | apply (forallb_Forall _ (fun e => 1000000000 <=? ev_time e)); [intros e H; cbn [active0 s_mlt]; lia | vm_compute; reflexivity] ].
+
 Example live_peer_nonvacuous :
   sorted answering_evs /\ answers 30 (trace (active0 30 1000000000) answering_evs)
   /\ (length (filter writes_testreq (trace (active0 30 1000000000) answering_evs)) = 2)%nat
@@ -1074,33 +1096,7 @@ Proof.
   assert (S : sorted answering_evs) by (apply sortedb_sorted; vm_compute; reflexivity).
   assert (A : answers 30 (trace (active0 30 1000000000) answering_evs)) by (apply answersb_ok; vm_compute; reflexivity).
   split; [exact S|]. split; [exact A|]. split; [vm_compute; reflexivity|].
-  assert (Q : Forall inseq_ev answering_evs).
-  { apply Forall_forall. intros e He.
-    assert (F : forallb inseq_evb answering_evs = true) by (vm_compute; reflexivity).
-    rewrite forallb_forall in F. apply inseq_evb_ok. exact (F e He). }
-  apply (live_peer 30 answering_evs (active0 30 1000000000) 1000000000);
-    [lia | repeat split; reflexivity | | right; split; [assumption | split; assumption]].
-  apply Forall_forall. intros e He.
-  assert (F : forallb (fun e => 1000 <=? ev_time e) answering_evs = true) by (vm_compute; reflexivity).
-  rewrite forallb_forall in F. specialize (F e He). lia.
-Qed.
-
-(* ------------------------------------------------------------------ witnesses with a sequence gap *)
-Fixpoint gap_okb (hb : Z) (s : st) (evs : list ev) : bool :=
-  match evs with
-  | [] => true
-  | e :: r =>
-      match e with
-      | Tick t => negb (s_conn s && (s_state s =? ST_RESENDREQ_AWAITING)) || (t - s_mlt s <=? 2 * hb * 1000)
-      | _ => true
-      end && gap_okb hb (fst (step s e)) r
-  end.
-
-Lemma gap_okb_ok : forall hb evs s, gap_okb hb s evs = true -> gap_ok hb s evs.
-Proof.
-  intros hb evs. induction evs as [|e evs IH]; intros s H; [exact I|].
-  cbn [gap_okb] in H. apply andb_true_iff in H. destruct H as [A B]. cbn [gap_ok]. split; [|auto].
-  destruct e; try exact I. intros Hc Hs. rewrite Hc, Hs, Z.eqb_refl in A. cbn [andb negb orb] in A. apply Z.leb_le in A. exact A.
+  live_answers_example answering_evs.
 Qed.
 
 (* hb = 30: the probe written at +29.25 s is answered at +31 s by a Heartbeat numbered one above the expected
@@ -1113,70 +1109,64 @@ Definition gap_answer_evs : list ev :=
          Recv 1000070000 0 (MHeartbeat (Some [49;48;48;48;48;54;50]%N))].
 
 Example answer_behind_gap_instance :
-  sorted gap_answer_evs /\ gap_ok 30 (active0 30 1000000000) gap_answer_evs
+  sorted gap_answer_evs
   /\ answers 30 (trace (active0 30 1000000000) gap_answer_evs)
   /\ (2 <= length (filter writes_testreq (trace (active0 30 1000000000) gap_answer_evs)))%nat
   /\ Forall (fun r => ~ wd_disconnect r) (trace (active0 30 1000000000) gap_answer_evs).
 Proof.
   assert (S : sorted gap_answer_evs) by (apply sortedb_sorted; vm_compute; reflexivity).
-  assert (G : gap_ok 30 (active0 30 1000000000) gap_answer_evs) by (apply gap_okb_ok; vm_compute; reflexivity).
   assert (A : answers 30 (trace (active0 30 1000000000) gap_answer_evs)) by (apply answersb_ok; vm_compute; reflexivity).
-  split; [exact S|]. split; [exact G|]. split; [exact A|].
+  split; [exact S|]. split; [exact A|].
   split; [vm_compute; repeat constructor|].
-  apply (live_peer_gaps 30 gap_answer_evs (active0 30 1000000000)); try assumption; try lia; try reflexivity.
-  - split; [reflexivity | intros _; reflexivity].
-  - apply Forall_forall. intros e He.
-    assert (F : forallb (fun e => 1000 <=? ev_time e) gap_answer_evs = true) by (vm_compute; reflexivity).
-    rewrite forallb_forall in F. specialize (F e He). lia.
+  live_answers_example gap_answer_evs.
 Qed.
 
-(* REFUTED: "a peer whose traffic is all behind an unfilled gap is probed and, if it answers, not dropped".
-   hb = 30, Heartbeats every 10 s from +5 s, all numbered above the expected number: the session waits for the
-   resend, the probe test does not apply outside ACTIVE, no TestRequest is ever written, and the peer is dropped at
-   +60.25 s, the first iteration that finds the last in-sequence message more than 2 hb s old. *)
-Fixpoint gap_msgs (t period d : Z) (k : nat) : list ev :=
-  match k with O => [] | S k' => Recv t d (MHeartbeat None) :: gap_msgs (t + period) period (d + 1) k' end.
-
-Definition unfilled_gap_evs : list ev := merge (ticks 1000000250 70) (gap_msgs 1000005000 10000 1 7).
+(* "a peer whose traffic is all behind an unfilled gap IS probed and, if it answers the probes, not dropped":
+   hb = 30, an application message numbered +1 at +5 s opens the gap, which is never filled; the watchdog probes at
+   +29.25, +59.25 and +89.25 s although the state is RESENDREQ_AWAITING; each probe is answered 1.75 s later by a
+   Heartbeat numbered behind the gap; the peer is never dropped. *)
+Definition gap_all_evs : list ev :=
+  merge (ticks 1000000250 100)
+        [Recv 1000005000 1 MApp;
+         Recv 1000031000 2 (MHeartbeat (Some [49;48;48;48;48;50;57]%N));
+         Recv 1000061000 3 (MHeartbeat (Some [49;48;48;48;48;53;57]%N));
+         Recv 1000091000 4 (MHeartbeat (Some [49;48;48;48;48;56;57]%N))].
 
 Definition behind_gapb (e : ev) : bool :=
   match e with Tick _ => true | Recv _ d _ => 0 <? d | _ => false end.
 
-Lemma unfilled_gap_refuted :
-  exists evs,
-    sorted evs /\ forallb behind_gapb evs = true /\ gap_le 10000 1000000000 evs = true
-    /\ answers 30 (trace (active0 30 1000000000) evs)
-    /\ forallb (fun r => negb (writes_testreq r)) (trace (active0 30 1000000000) evs) = true
-    /\ exists r, In r (trace (active0 30 1000000000) evs) /\ wd_disconnect r.
+Example unfilled_gap_probed_and_spared :
+  sorted gap_all_evs /\ forallb behind_gapb gap_all_evs = true
+  /\ answers 30 (trace (active0 30 1000000000) gap_all_evs)
+  /\ (length (filter writes_testreq (trace (active0 30 1000000000) gap_all_evs)) = 3)%nat
+  /\ s_state (final (active0 30 1000000000) gap_all_evs) = ST_RESENDREQ_AWAITING
+  /\ Forall (fun r => ~ wd_disconnect r) (trace (active0 30 1000000000) gap_all_evs).
 Proof.
-  exists unfilled_gap_evs.
-  split; [apply sortedb_sorted; vm_compute; reflexivity|].
+  assert (S : sorted gap_all_evs) by (apply sortedb_sorted; vm_compute; reflexivity).
+  assert (A : answers 30 (trace (active0 30 1000000000) gap_all_evs)) by (apply answersb_ok; vm_compute; reflexivity).
+  split; [exact S|]. split; [vm_compute; reflexivity|]. split; [exact A|].
   split; [vm_compute; reflexivity|]. split; [vm_compute; reflexivity|].
-  split; [apply answersb_ok; vm_compute; reflexivity|].
-  split; [vm_compute; reflexivity|].
-  assert (H : existsb wd_disconnectb (trace (active0 30 1000000000) unfilled_gap_evs) = true) by (vm_compute; reflexivity).
-  apply existsb_exists in H. destruct H as [r [Hin Hr]]. exists r. split; [assumption | apply wd_disconnectb_ok; assumption].
+  live_answers_example gap_all_evs.
 Qed.
 
-(* an answer within 2 hb - 1 s of the moment the probe was written meets the absolute deadline id + 2 hb s *)
-Lemma answer_deadline : forall hb t ta, ta <= t + (2 * hb - 1) * 1000 -> ta <= (t / 1000 + 2 * hb) * 1000.
-Proof. intros hb t ta H. pose proof (div1000 t). lia. Qed.
-
+(* an answer within 2 hb s of the moment the probe was written is in time; so is any valid message *)
 Lemma constants :
   (forall hb, thr thr_probe hb = (hb - 1) * 1000) /\ (forall hb, thr thr_dead hb = 2 * hb * 1000)
-  /\ (forall hb, thr thr_treq hb = 2 * hb * 1000) /\ tick_ms = 1000.
-Proof. repeat split; auto using thr_probe_eq, thr_dead_eq, thr_treq_eq. Qed.
+  /\ (forall hb, thr thr_treq hb = 2 * hb * 1000) /\ (forall hb, thr thr_treq_silence hb = 2 * hb * 1000)
+  /\ tick_ms = 1000.
+Proof.
+  repeat split; auto using thr_probe_eq, thr_dead_eq, thr_treq_eq;
+    try (intro; unfold thr, thr_treq_silence; cbn [fst snd]; lia).
+Qed.
 
 Example traffic_instance :
   let evs := merge (ticks 1000000250 12) (app_msgs 1000004000 4000 3) in
   fed ((5 - 1) * 1000) 1000000000 evs
-  /\ Forall (fun r => ~ wd_disconnect r) (trace (active0 5 1000000000) evs).
+  /\ Forall (fun r => is_tick (r_ev r) = true -> r_out r = []) (trace (active0 5 1000000000) evs).
 Proof.
   intro evs.
   assert (F : fed ((5 - 1) * 1000) 1000000000 evs) by (vm_compute; repeat split; discriminate).
   split; [exact F|].
-  apply (live_peer 5 evs (active0 5 1000000000) 1000000000); [lia | repeat split; reflexivity | | left; exact F].
-  apply Forall_forall. intros e He.
-  assert (G : forallb (fun e => 1000 <=? ev_time e) evs = true) by (vm_compute; reflexivity).
-  rewrite forallb_forall in G. specialize (G e He). lia.
+  destruct (fed_quiet 5 ((5 - 1) * 1000) evs (active0 5 1000000000) 1000000000) as [A _];
+    [lia | lia | repeat split; reflexivity | exact F | exact A].
 Qed.
